@@ -3,9 +3,9 @@ package drivers
 import (
 	"encoding/json"
 	"fmt"
-	"strings"
 	"math/rand"
 	"net"
+	"strings"
 	"time"
 
 	"verifharness/abs"
